@@ -167,7 +167,7 @@ def run_case(case):
             t0 = sess.clock.now()
             dpath = rng.choice(["/sdcard/d", "/data/local/tmp/x y", "/d"])
             cb_calls = []
-            cb = (lambda p, n, t: cb_calls.append((p, n, t))) if rng.random() < 0.4 else None
+            cb = scen.make_callback(case["impl"], "ok", cb_calls) if rng.random() < 0.4 else None
             out = sess.call("push", src if rng.random() < 0.7 else src + "/", dpath, mtime=7, progress_callback=cb)
             t1 = sess.clock.now()
         finally:
